@@ -108,15 +108,48 @@ def gen_grammar(seed, index, max_rules=3, max_ops=6):
     return '\n'.join(lines) + '\n'
 
 
-def job_synth(seed, lo, hi):
+def systematic_terms(ops, atoms):
+    """all EBNF terms with exactly `ops` operators over `atoms` (operators: concatenation, |, [], *, +)"""
+    if ops == 0:
+        return list(atoms)
+    out = []
+    for t in systematic_terms(ops - 1, atoms):
+        out += ['[%s]' % t, '(%s)*' % t, '(%s)+' % t]
+    for left in range(ops):
+        for a in systematic_terms(left, atoms):
+            for b in systematic_terms(ops - 1 - left, atoms):
+                out.append('%s %s' % (a, b))
+                out.append('(%s | %s)' % (a, b))
+    return out
+
+
+_SYS = {}
+
+
+def systematic_grammar(index):
+    """index into the family  r0: <term with <=3 operators over 'a', 'b', r0, r1> ; r1: 'b' 'a' | 'a'"""
+    if not _SYS:
+        terms = []
+        for n in range(4):
+            terms += systematic_terms(n, ["'a'", "'b'", 'r0', 'r1'])
+        _SYS['terms'] = terms
+    terms = _SYS['terms']
+    if index >= len(terms):
+        return None
+    return "r0: %s\nr1: 'b' 'a' | 'a'\n" % terms[index]
+
+
+def job_synth(seed, lo, hi, systematic=False):
     from parso.python.token import PythonTokenTypes
     from . import tables
     out = []
     for i in range(lo, hi):
-        text = gen_grammar(seed, i)
+        text = systematic_grammar(i) if systematic else gen_grammar(seed, i)
+        if text is None:
+            break
         t0 = time.time()
         try:
-            res, spec, g = tables.check_grammar(text, PythonTokenTypes, 'synth%d' % i, timeout_ms=20000)
+            res, spec, g = tables.check_grammar(text, PythonTokenTypes, ('sys%d' if systematic else 'synth%d') % i, timeout_ms=20000)
         except ValueError as e:
             out.append({'index': i, 'text': text, 'results': [
                 {'name': 'synth%d:spec-read' % i, 'verdict': 'error', 'seconds': 0.0, 'detail': repr(e)}]})
